@@ -102,9 +102,8 @@ def random_tokens(rng, t, maxtok):
     toks = []
     if rng.random() < 0.3:
         toks.append({"sym": t["surf"], "cnt": rng.choice([0, 0, 1, 2]), "kind": "surf"})
-    if rng.random() < 0.08:
-        toks.append({"sym": t["grain"], "cnt": rng.choice([0, 0, 1, 2]), "kind": "grain"})
-        return toks
+    if rng.random() < 0.08:      # a grain (never with a surface prefix: grains are not ice species)
+        return [{"sym": t["grain"], "cnt": rng.choice([0, 0, 1, 2]), "kind": "grain"}]
     n = rng.randint(1, maxtok)
     body = []
     for k in range(n):
